@@ -193,7 +193,11 @@ func (g *Gen) declStmt(o *out, d int) {
 		}
 	}
 	e := g.expr(t, g.exprDepth())
-	switch g.pick("declform", 6, 3, 2) {
+	w := []int{6, 3, 2}
+	if !g.on("var-decl-stmt") {
+		w = []int{1, 0, 0}
+	}
+	switch g.pick("declform", w...) {
 	case 0:
 		o.line("%s := %s", name, g.typedIfConst(t, e))
 		g.use("define")
@@ -950,7 +954,7 @@ func (g *Gen) closureStmt(o *out, d int) {
 		fs := g.name("fs")
 		k := g.n(1, 4, "clk")
 		i := g.name("i")
-		o.line("var %s []func() int", fs)
+		o.line("%s := []func() int{}", fs)
 		switch g.pick("cllv", 3, 2) {
 		case 0:
 			o.line("for %s := 0; %s < %d; %s++ {", i, i, k, i)
@@ -1037,6 +1041,10 @@ func (g *Gen) multiAssignStmt(o *out, d int) {
 		o.line("%s, %s = %s, %s", l1, l2, g.expr(t1, 2), g.expr(t2, 2))
 		g.use("parallel-assign")
 	default: // multi-value call
+		if !g.on("multi-value-define") {
+			g.assignStmt(o, d)
+			return
+		}
 		var cands []*fnInfo
 		for _, f := range g.funcs {
 			if len(f.Results) == 2 && !f.Mutating && f.Recv == nil && g.cost+g.mult*f.Cost <= g.budget {
@@ -1141,9 +1149,20 @@ func (g *Gen) mapStmt(o *out, d int) {
 		o.line("%s[%s] = %s", p.code, k, g.expr(p.t.Elem, 2))
 		g.use("map-assign")
 	case 1:
+		if !g.on("delete-big-uint-const") && p.t.Key.Kind == KInt && !p.t.Key.Signed && p.t.Key.Bits == 64 {
+			// known finding: delete(m, <constant above MaxInt64>) panics "overflows int64"
+			k = g.nonConst(p.t.Key, 1)
+		}
 		o.line("delete(%s, %s)", p.code, k)
 		g.use("map-delete")
 	case 2:
+		if !g.on("map-comma-ok") {
+			v := g.name("v")
+			o.line("%s := %s[%s]", v, p.code, k)
+			g.declare(&Var{Name: v, T: p.t.Elem})
+			g.use("map-lookup")
+			break
+		}
 		v, ok := g.name("v"), g.name("ok")
 		o.line("%s, %s := %s[%s]", v, ok, p.code, k)
 		g.declare(&Var{Name: v, T: p.t.Elem})
